@@ -197,7 +197,17 @@ def make(interp):
         starts = list(start_indices); sizes = list(slice_sizes)
         los = [A.Max(0, A.Min(st.get(()) if isinstance(st, SArr) and st.ndim == 0 else st, interp.binop("Sub", n, sz))) for st, sz, n in zip(starts, sizes, operand.shape)]
         return SArr(tuple(sizes), lambda idx: operand.get(tuple(interp.binop("Add", lo, i) for lo, i in zip(los, idx))))
-    jax = {"vmap": B(vmap, "vmap"), "pmap": B(pmap, "pmap"), "jit": B(jit, "jit"), "numpy": jnp,
+    # Poisson pmf / cdf as uninterpreted mathematical functions (assumed contracts; numerics of jax.scipy trusted)
+    POISPMF = z3.Function("PoissonPMF", z3.RealSort(), z3.IntSort(), z3.RealSort()); POISCDF = z3.Function("PoissonCDF", z3.RealSort(), z3.IntSort(), z3.RealSort())
+    def _pois(F):
+        def f(k, mu):
+            mu_ = _real(mu)
+            g = lambda x: F(mu_, toz3(x))
+            return SArr(k.shape, lambda idx: g(k.get(idx))) if isinstance(k, SArr) else g(k)
+        return f
+    _early_dist = {"POISPMF": POISPMF, "POISCDF": POISCDF}
+    jscipy = {"stats": {"poisson": {"pmf": B(_pois(POISPMF)), "cdf": B(_pois(POISCDF))}}}
+    jax = {"vmap": B(vmap, "vmap"), "pmap": B(pmap, "pmap"), "jit": B(jit, "jit"), "numpy": jnp, "scipy": jscipy,
            "lax": {"scan": B(scan, "scan"), "dynamic_slice_in_dim": B(dynamic_slice_in_dim), "dynamic_slice": B(dynamic_slice)},
            "devices": B(lambda: SArr((interp.env_device_count,), lambda idx: "device")),
            # placement only: values are unchanged (assumed contract; real device/sharding behaviour is exercised by the multi-device harness)
@@ -243,7 +253,7 @@ def make(interp):
         def log_prob(x):
             return LOGP(MULT[m](*lg, tot, *[_int(x.get((j,))) for j in range(m)]))
         return Obj("MultinomialDist", {"log_prob": B(log_prob)})
-    interp.dist = {"GCDF": GCDF, "NBPMF": NBPMF, "MULT": MULT, "LOGP": LOGP}
+    interp.dist = {"GCDF": GCDF, "NBPMF": NBPMF, "MULT": MULT, "LOGP": LOGP}; interp.dist.update(_early_dist)
     numpyro_ns = {"distributions": {"Gamma": B(Gamma), "NegativeBinomialProbs": B(NegBin), "Multinomial": B(Multinomial)}}
     return {"jax": jax, "jax.numpy": jnp, "jax.random": random_ns, "numpyro": numpyro_ns, "numpyro.distributions": numpyro_ns["distributions"], "numpy": np, "loguru": {"logger": logger},
             "jaxtyping": {k: Unres(k) for k in ("Array", "Float", "Int")},
